@@ -12,7 +12,7 @@ def run_script(sc, embedded=False):
     import usim
     from usim.py import Environment, Interrupt
     env = Environment()
-    trace = [{'e': 'sc', 'until': sc['until'], 'procs': sc['procs'], 'defuse': bool(sc.get('defuse'))}]
+    trace = [{'e': 'sc', 'until': sc['until'], 'procs': sc['procs'], 'defuse': bool(sc.get('defuse')), 'uz': bool(sc.get('uz'))}]
     events = {1: env.event(), 2: env.event()}
     procs = {}
 
@@ -108,8 +108,10 @@ def run_script(sc, embedded=False):
     try:
         if embedded:
             # the environment runs inside a native simulation next to a native activity
-            usim.run(env.until(None if until == 0 else until), native_waiter())
+            usim.run(env.until(0 if sc.get('uz') else None if until == 0 else until), native_waiter())
             out = None
+        elif sc.get('uz'):          # a numeric `until` that happens to be falsy: the current time, zero
+            out = env.run(until=0)
         elif until == 0:
             out = env.run()
         elif until < 10:
@@ -159,4 +161,7 @@ def random_script(rng, np_=3, ns=3):
             return ['proc', rng.choice(others)]
         return ['intr', rng.choice(others), 40 + i]
     n = rng.choice([2, 3, 3])
+    if rng.random() < 0.06:
+        # run(until=0) at time 0: nothing at a later time may run (uz: the monitor takes the date 0, not "no limit")
+        return {'until': 0, 'uz': True, 'defuse': False, 'procs': [[step(i + 1, n) for _ in range(rng.randint(1, ns))] for i in range(n)]}
     return {'until': rng.choice([0, 0, 2, 11]), 'defuse': rng.random() < 0.25, 'procs': [[step(i + 1, n) for _ in range(rng.randint(1, ns))] for i in range(n)]}
